@@ -101,7 +101,7 @@ theorem firstEndDfa_prefix_free (s e u v : List Nat) (hu : (firstEndDfa s e).acc
   | nil => rfl
   | cons x v =>
     exfalso
-    simp only [Dfa.accepts, Aut.accepts, Aut.run, List.foldl_append, List.foldl_cons] at hu hv
+    simp only [SpecDfa.accepts, Aut.accepts, Aut.run, List.foldl_append, List.foldl_cons] at hu hv
     have hq : List.foldl (firstEndDfa s e).aut.step (firstEndDfa s e).start u = s.length + e.length := by
       have : (firstEndDfa s e).aut.acc (List.foldl (firstEndDfa s e).aut.step (firstEndDfa s e).start u) = true := hu
       simpa [firstEndDfa] using this
